@@ -63,6 +63,18 @@ def main():
     CC.run_blocks(run, 'C02', on_case)
     crashes = {}
 
+    # ---- collapsing parameters: every value must keep the output inside MAY ---------------------
+    if not run.only or any(o.startswith('COLLAPSE') for o in run.only):
+        cb, base = CC.collapse_cases(run.tier, run.seed)
+        for name, cases, info in cb:
+            res, _, _ = E.run_block(name, cases, jobs=run.jobs)
+            verdicts = vlib.pmap(CC.judge, list(zip(cases, res)), jobs=run.jobs)
+            nt = 0
+            for c, r, j in zip(cases, res, verdicts):
+                if on_case(c, r, j, name):
+                    nt += 1
+            run.block(name, len(cases), nt, True, **info)
+
     # ---- binding limits ---------------------------------------------------------------------
     if not run.only or any(o.startswith('LIMIT') for o in run.only):
         for refname, tx, center in (('R1', 'ENST01', 60), ('R3', 'ENST03', 40)):
